@@ -41,6 +41,7 @@ package gometrics
 //@   ensures[C20] registered: has(r.registeredGauges, regID(ID)) && (old(has(r.registeredGauges, regID(ID))) ==> r.registeredGauges[regID(ID)] == old(r.registeredGauges[regID(ID)]))
 //@   ensures[C20] new_poller: !old(has(r.registeredGauges, regID(ID))) ==> fresh(r.registeredGauges[regID(ID)]) && r.registeredGauges[regID(ID)].supplier == supplier && r.registeredGauges[regID(ID)].id == regID(ID)
 //@   owns[C17]
+//@   assigns mapof(r.registeredGauges)
 //@ define regID(id string) string = ite(strHasPrefix(id, "."), strTrimPrefix(id, "."), id)
 
 //@ func (*MetricRegistry).RegisterDistribution
@@ -50,18 +51,21 @@ package gometrics
 //@   ensures[C20] new_listener: !old(has(r.registeredListeners, regID(ID))) ==> dyntype(result, "*metric_registry/gometrics.metricSampleListener") && fresh(ref(result)) && as(result, "*metric_registry/gometrics.metricSampleListener").metricType == 0 && as(result, "*metric_registry/gometrics.metricSampleListener").id == r.prefix + regID(ID) && r.registeredListeners[regID(ID)] == ref(result)
 //@   ensures[C20] nonnil: old(forall k string :: has(r.registeredListeners, k) ==> r.registeredListeners[k] != nil) ==> result != nil
 //@   owns[C17]
+//@   assigns mapof(r.registeredListeners)
 //@ func (*MetricRegistry).RegisterTiming
 //@   maintains[C20] r
 //@   refines[C20] core.MetricRegistry.RegisterTiming
 //@   ensures[C20] reuse: old(has(r.registeredListeners, regID(ID))) ==> ref(result) == old(r.registeredListeners[regID(ID)])
 //@   ensures[C20] new_listener: !old(has(r.registeredListeners, regID(ID))) ==> dyntype(result, "*metric_registry/gometrics.metricSampleListener") && fresh(ref(result)) && as(result, "*metric_registry/gometrics.metricSampleListener").metricType == 1 && as(result, "*metric_registry/gometrics.metricSampleListener").id == r.prefix + regID(ID) && r.registeredListeners[regID(ID)] == ref(result)
 //@   owns[C17]
+//@   assigns mapof(r.registeredListeners)
 //@ func (*MetricRegistry).RegisterCount
 //@   maintains[C20] r
 //@   refines[C20] core.MetricRegistry.RegisterCount
 //@   ensures[C20] reuse: old(has(r.registeredListeners, regID(ID))) ==> ref(result) == old(r.registeredListeners[regID(ID)])
 //@   ensures[C20] new_listener: !old(has(r.registeredListeners, regID(ID))) ==> dyntype(result, "*metric_registry/gometrics.metricSampleListener") && fresh(ref(result)) && as(result, "*metric_registry/gometrics.metricSampleListener").metricType == 2 && as(result, "*metric_registry/gometrics.metricSampleListener").id == r.prefix + regID(ID) && r.registeredListeners[regID(ID)] == ref(result)
 //@   owns[C17]
+//@   assigns mapof(r.registeredListeners)
 
 //@ func (*gometricsMetricPoller).poll
 //@   ensures[C20] polls_supplier: ncalls("funcvalue:metric_registry/gometrics.gometricsMetricPoller.supplier") == 1 && ret0 == p.id && ret1 == callres("funcvalue:metric_registry/gometrics.gometricsMetricPoller.supplier", 0, 0) && ret3 == callres("funcvalue:metric_registry/gometrics.gometricsMetricPoller.supplier", 0, 1)
